@@ -38,6 +38,9 @@ type PkgOpts struct {
 	Pairs []model.Pair
 	// ForceDelete makes every store use delete_prefix on some tag.
 	ForceDelete bool
+	// FilterProb / IndexProb override the default probabilities (0.25 / 0.12) of block filters and index modules.
+	FilterProb float64
+	IndexProb  float64
 }
 
 func pick[T any](r *rand.Rand, xs []T) T { return xs[r.Intn(len(xs))] }
@@ -92,7 +95,10 @@ func GenPkg(r *rand.Rand, o PkgOpts) *Pkg {
 		switch x := r.Intn(100); {
 		case x < 40:
 			kind = "store"
-		case x < 52 && !o.NoIndex:
+		case x < 52 && !o.NoIndex && o.IndexProb == 0:
+			kind = "index"
+		}
+		if o.IndexProb > 0 && r.Float64() < o.IndexProb {
 			kind = "index"
 		}
 		if i == n-1 {
@@ -245,7 +251,11 @@ func GenPkg(r *rand.Rand, o PkgOpts) *Pkg {
 			stores = append(stores, name)
 		}
 		// block filter
-		if kind != "index" && !o.NoFilters && len(indexes) > 0 && r.Intn(4) == 0 {
+		fp := 0.25
+		if o.FilterProb > 0 {
+			fp = o.FilterProb
+		}
+		if kind != "index" && !o.NoFilters && len(indexes) > 0 && r.Float64() < fp {
 			mod.BlockFilter = &pbsubstreams.Module_BlockFilter{Module: pick(r, indexes), Query: &pbsubstreams.Module_BlockFilter_QueryString{QueryString: pick(r, filterQueries)}}
 		}
 		prog.Inputs = specs
